@@ -247,6 +247,11 @@ func (c *Config) SetString(name string, idx int, value string, opts ...Option) e
 //
 // SetChild supports the options: PathSep, MetaData
 func (c *Config) SetChild(name string, idx int, value *Config, opts ...Option) error {
+	if value != nil && !value.ctx.empty() {
+		// value already has a place in a configuration tree: its settings know that
+		// place as their path and parent. It is attached here as a copy.
+		value = cfgSub{c: value}.cpy(context{}).(cfgSub).c
+	}
 	return c.setField(name, idx, cfgSub{c: value}, opts)
 }
 
